@@ -1687,6 +1687,13 @@ def check_C05(tier, seed):
         (["(setq f (let ((pred (lambda (v) (> v 1)))) (lambda (l) (seq-find #'pred l))))", "(funcall f '(1 2 3))"], [None, '2']),
         (["(defun mk (fn) (lambda (l) (mapcar 'fn l)))", "(setq f (mk (lambda (v) (list v))))", "(funcall f '(1 2))", "(defun fn (v) 'global)", "(funcall f '(1))"], [None, None, '((1) (2))', None, '((1))']),
     ]
+    # nested closures: the inner closure captures the outer cell again (C05_outer_cell_recaptured): it starts from the value the
+    # outer cell has when the inner one is created, and its assignments stay its own
+    fixed += [
+        (["(setq mk (let ((n 0)) (lambda () (setq n (+ n 10)) (lambda () (setq n (+ n 1)) n))))", "(setq a (funcall mk))", "(setq b (funcall mk))", "(list (funcall a) (funcall a) (funcall b) (funcall a))"], [None, None, None, '(11 12 21 13)']),
+        (["(setq mk (let ((x 1)) (lambda (p) (lambda (x) (list x p)))))", "(funcall (funcall mk 2) 3)", "(let ((p 9)) (funcall (funcall mk 2) 3))"], [None, '(3 2)', '(3 2)']),
+        (["(setq mk (let ((x 1) (y 2)) (lambda () (let ((z (+ x y))) (lambda () (list x y z))))))", "(setq x 10 y 20 z 30)", "(funcall (funcall mk))"], [None, None, '(1 2 3)']),
+    ]
     for t, e in fixed: add(t, e, 'fixed')
     cases = []
     for i, (texts, meta) in enumerate(items):
